@@ -323,6 +323,16 @@ func (in *Inst) Merged(h hash.Event) []string {
 	return out
 }
 
+// FC asks the instance's index for ForklessCause(a, b).
+func (in *Inst) FC(a, b hash.Event) string {
+	return in.guarded(func() string {
+		if in.dagIdx.ForklessCause(a, b) {
+			return "q1"
+		}
+		return "q0"
+	})
+}
+
 // RootOb is one registered root of a frame.
 type RootOb struct {
 	Val uint32
